@@ -6,19 +6,19 @@ ROOT = os.path.dirname(os.path.dirname(os.path.abspath(__file__)))
 # id -> (technique, level text, design ref, level note)
 T = 'Trusted: the harness oracles named in the technique (RefCodec = independent reading of ETSI TS 102 606 / RFC 5163, bitwise CRC reference self-tested against 0x0376E6E7), proptest 1.11, rustc; harness built with overflow checks on so arithmetic wrap in the crate surfaces as a panic.'
 CHECKS = {
- 'C01': ('proptest streams through a real encapsulator/decapsulator pair, round-trip oracle + RefCodec parse + completeness rule on the written label',
+ 'C01': ('proptest streams through a real encapsulator/decapsulator pair, round-trip oracle + RefCodec parse + completeness rule on the written label; exhaustive sweeps over every PDU length 0..=4099 x label case x buffer fit and over every protocol type 0x0600..=0xFFFF',
          "Exploration by generated-input search: streams of PDUs with substitution, limit-length PDUs, exact and > 4097-byte buffers, storages >= PDU. Evidence is 'N cases, M distinct non-trivial, these classes, no counter-example'; absence is not proven.",
          'DESIGN.md §5 C01',
          T),
- 'C02': ('proptest buffer-size schedules driven exactly as the statement says; completion bound, then round trip through a real decapsulator',
+ 'C02': ('proptest buffer-size schedules driven exactly as the statement says; completion bound, then round trip through a real decapsulator; enumerated sweep of every PDU length 1..=65533-L x label case under uniform buffers of 4097 / 70000 / 1021 bytes (exhaustive in the thorough tier)',
          "Exploration by generated-input search: PDUs up to 65533 bytes x schedules of tiny, threshold and > 4097-byte buffers; sender totality for buffers >= 13, conservative completion bound, exact round trip. Evidence is 'N cases, M distinct non-trivial, these classes, no counter-example'; absence is not proven.",
          'DESIGN.md §5 C02',
          T),
- 'C03': ('proptest fault injection on fragment trains (drop/dup/swap/bit flips/bursts <= 32 bits/truncation/field overwrite/splicing) judged by a reference receiver (RefRx) + reference CRC; exhaustive single-bit sweep over 200 small trains',
+ 'C03': ('proptest fault injection on fragment trains (drop/dup/swap/bit flips/bursts <= 32 bits/truncation/field overwrite/splicing) judged by a reference receiver (RefRx) + reference CRC; exhaustive single-bit sweep over 200 small trains; exhaustive sweep of every announced total length 0..=63 (+ 8 large values) x tiny trains x label cases with a consistent CRC',
          "Exploration by generated-input search: every delivery at an end fragment is re-derived from the bytes actually received (length and CRC-32 recomputed independently); the single-bit sweep over small trains is complete. Evidence is 'N cases, M distinct non-trivial, these classes, no counter-example'; absence is not proven.",
          'DESIGN.md §5 C03, §7.3',
          T),
- 'C04': ('stateful proptest: sender/receiver in lock step with content-tagged PDUs; receiver-alone histories judged against the RefRx effective-label register',
+ 'C04': ('stateful proptest: sender/receiver in lock step with content-tagged PDUs; receiver-alone histories judged against the RefRx effective-label register; exhaustive enumeration of every lock-step history of 1..=5 (thorough 1..=7) operations over an 18-operation alphabet',
          "Exploration by generated-input search: operation histories with failing calls, settings changes, resets and fragment traffic; every delivered PDU is matched to the sender's record. Evidence is 'N cases, M distinct non-trivial, these classes, no counter-example'; absence is not proven.",
          'DESIGN.md §5 C04',
          T),
@@ -26,31 +26,31 @@ CHECKS = {
          "Exploration by generated-input search: the <= 3-byte space is closed in the thorough tier (quick closes lengths 0..=2 in all states and length 3 in two); the header sweep and the generated part sample the rest. Evidence is 'N cases, M distinct non-trivial, these classes, no counter-example'; absence is not proven.",
          'DESIGN.md §5 C05',
          T),
- 'C06': ('proptest sender sessions; every call executed twice into complementary prefills (written-set observation); each emitted packet parsed by RefCodec and compared field by field; (thorough) libFuzzer target tx_ops',
+ 'C06': ('proptest sender sessions; every call executed twice into complementary prefills (written-set observation); each emitted packet parsed by RefCodec and compared field by field; enumerated sessions for every PDU length 0..=65540 x label case x buffer profile (exhaustive in the thorough tier); (thorough) libFuzzer target tx_ops',
          "Exploration by generated-input search: buffers 0..=70000 on first and continuation calls, extension chains, hand-made contexts. Evidence is 'N cases, M distinct non-trivial, these classes, no counter-example'; absence is not proven.",
          'DESIGN.md §5 C06',
          T),
- 'C07': ('exhaustive enumeration of all order-preserving merges of small train sets with one stray at every position + proptest random interleavings; reference slot-ownership model',
+ 'C07': ('exhaustive enumeration of all order-preserving merges of small train sets with one stray at every position + proptest random interleavings; reference slot-ownership model; exhaustive sweep of every ordered pair of fragment ids in memories of 128, 5 and 256 slots',
          "Exploration by generated-input search: the enumerated family (2 PDUs x 2..4 fragments, 3 PDUs x 2..3 fragments, 12..16 stray kinds, every position; 2 / 2,3,4 slots) is complete; larger configurations are sampled. Evidence is 'N cases, M distinct non-trivial, these classes, no counter-example'; absence is not proven.",
          'DESIGN.md §5 C07',
          T),
- 'C08': ('stateful proptest over provision/decap/reset/new_pdu histories on a ledger-wrapped memory with injected GseDecapMemory failures; conservation invariant after every call + final drain',
+ 'C08': ('stateful proptest over provision/decap/reset/new_pdu histories on a ledger-wrapped memory with injected GseDecapMemory failures; conservation invariant after every call + final drain; exhaustive enumeration of every history of 1..=4 (thorough 1..=6) operations over a 24-operation alphabet on 2- and 3-slot receivers',
          "Exploration by generated-input search: buffer conservation is checked at every step of every history and at the end by draining the real memory through its public trait. Evidence is 'N cases, M distinct non-trivial, these classes, no counter-example'; absence is not proven.",
          'DESIGN.md §5 C08',
          T),
- 'C09': ('proptest single calls after random prior states; buffer/state snapshot comparison and follow-up-packet differential twin; mandatory-error rules; (thorough) libFuzzer target tx_ops',
+ 'C09': ('proptest single calls after random prior states; buffer/state snapshot comparison and follow-up-packet differential twin; mandatory-error rules; exhaustive grids: encap over length x label x buffer, encap_frag over every (remaining 0..=4200, buffer 0..=4300) pair; (thorough) libFuzzer target tx_ops',
          "Exploration by generated-input search: PDU and buffer lengths up to 70000, every label/protocol type/context/extension-list class. Evidence is 'N cases, M distinct non-trivial, these classes, no counter-example'; absence is not proven.",
          'DESIGN.md §5 C09',
          T),
- 'C10': ('proptest frames of real encapsulator packets; differential twin receivers (walker vs packet-by-packet)',
+ 'C10': ('proptest frames of real encapsulator packets; differential twin receivers (walker vs packet-by-packet); exhaustive enumeration of every frame of 1..=5 (thorough 1..=7) items over a 16-item alphabet x 5 padding lengths',
          "Exploration by generated-input search: frames with every rejection class, extension/signalling packets, padding and trailing garbage. Evidence is 'N cases, M distinct non-trivial, these classes, no counter-example'; absence is not proven.",
          'DESIGN.md §5 C10',
          T),
- 'C11': ('proptest fragment trains incl. hand-made contexts at any position; partition/progress oracle on RefCodec-parsed packets',
+ 'C11': ('proptest fragment trains incl. hand-made contexts at any position; partition/progress oracle on RefCodec-parsed packets; exhaustive continuation grid over every (remaining 0..=4200, buffer 0..=4300) pair',
          "Exploration by generated-input search: continuation buffers weighted to 0..=12 and to the end-packet threshold. Evidence is 'N cases, M distinct non-trivial, these classes, no counter-example'; absence is not proven.",
          'DESIGN.md §5 C11',
          T),
- 'C12': ('exhaustive table-index sweep + proptest differential vs bitwise CRC-32/MPEG-2 reference + recording CRC calculators end to end',
+ 'C12': ('exhaustive table-index sweep + exhaustive sweeps of every 16-bit total length, every 16-bit protocol type and every PDU length 0..=4200 x label length + proptest differential vs bitwise CRC-32/MPEG-2 reference + recording CRC calculators end to end',
          "Exploration by generated-input search: the sweep over every table index at every byte position of short messages is complete; long messages and end-to-end trailers are sampled. Evidence is 'N cases, M distinct non-trivial, these classes, no counter-example'; absence is not proven.",
          'DESIGN.md §5 C12',
          T),
@@ -66,7 +66,7 @@ CHECKS = {
          "Exploration by generated-input search: bounded-depth histories are complete; counter behaviour at 255 is reached by generated bursts. Evidence is 'N cases, M distinct non-trivial, these classes, no counter-example'; absence is not proven.",
          'DESIGN.md §5 C15, §7.5',
          T),
- 'C16': ('stateful proptest: arbitrary poisoning prefix (valid, mutated, raw traffic; drained/over-provisioned memory; open contexts on every slot) then the recovery protocol with two probes',
+ 'C16': ('stateful proptest: arbitrary poisoning prefix (valid, mutated, raw traffic; drained/over-provisioned memory; open contexts on every slot) then the recovery protocol with two probes; exhaustive enumeration of every poisoning prefix of 1..=4 (thorough 1..=6) steps over a 20-step alphabet x 6 probe variants',
          "Exploration by generated-input search: probes must be delivered byte-exact after any generated prefix. Evidence is 'N cases, M distinct non-trivial, these classes, no counter-example'; absence is not proven.",
          'DESIGN.md §5 C16',
          T),
@@ -74,15 +74,15 @@ CHECKS = {
          "Exploration by generated-input search: bounded-depth sequences are complete for memories of 1..4 slots. Evidence is 'N cases, M distinct non-trivial, these classes, no counter-example'; absence is not proven.",
          'DESIGN.md §5 C17, §7.6',
          T),
- 'C18': ('proptest differential: encap_preview vs encap and encap_frag_preview vs encap_frag on the same state and arguments',
+ 'C18': ('proptest differential: encap_preview vs encap and encap_frag_preview vs encap_frag on the same state and arguments; exhaustive grids over every (remaining 0..=4200, buffer 0..=4300) pair and over length x label x buffer for first calls',
          "Exploration by generated-input search: PDU/buffer lengths up to 70000, all protocol-type ranges, contexts at/after the PDU end. Evidence is 'N cases, M distinct non-trivial, these classes, no counter-example'; absence is not proven.",
          'DESIGN.md §5 C18',
          T),
- 'C19': ('proptest over every packet of real sender sessions: peek alone / followed by bytes vs RefCodec reading vs decap of the same bytes',
+ 'C19': ('proptest over every packet of real sender sessions: peek alone / followed by bytes vs RefCodec reading vs decap of the same bytes; exhaustive sweep of every fragment id x every label value of the alphabets and special-value lists x packet shape',
          "Exploration by generated-input search: all label kinds incl. substituted re-use, extension chains, fragment ids. Evidence is 'N cases, M distinct non-trivial, these classes, no counter-example'; absence is not proven.",
          'DESIGN.md §5 C19',
          T),
- 'C20': ("proptest round trip parse(generate(d)) == d, differential against RefCodec layout, against the encapsulator's bytes and against the decapsulator (constant CRC calculator)",
+ 'C20': ("proptest round trip parse(generate(d)) == d, differential against RefCodec layout, against the encapsulator's bytes and against the decapsulator (constant CRC calculator); exhaustive sweep of every payload length 0..=4000 x packet kind x label case",
          "Exploration by generated-input search: four packet kinds x label kinds x payloads 0..=4000 x any CRC. Evidence is 'N cases, M distinct non-trivial, these classes, no counter-example'; absence is not proven.",
          'DESIGN.md §5 C20',
          T),
